@@ -321,7 +321,10 @@ def run_one(ch, focus, model, cfg, mode, policy, ref, out, problem=None) -> str:
     result = None
     crashed = None
     c0 = CLOCK.count
-    CLOCK.set_budget(SOLVER_BUDGET)
+    # the budget is a function of the problem size (C04): the loops of the heuristics and of shaving run over all shared
+    # domains, so hundreds of instantiated padding domains multiply the steps of every choice without changing the search
+    budget = SOLVER_BUDGET * max(1, -(-len(model["shr"]) // 10))
+    CLOCK.set_budget(budget)
     prop_of_mode = "C03" if mode[0] in ("minimize", "maximize") else "C02"
     try:
         with seams.attach(L):
@@ -352,11 +355,11 @@ def run_one(ch, focus, model, cfg, mode, policy, ref, out, problem=None) -> str:
         viol(
             "C04",
             "step-budget",
-            f"{mode} with config {gen.cfg_str(cfg)} exceeded {SOLVER_BUDGET} simulated steps in "
+            f"{mode} with config {gen.cfg_str(cfg)} exceeded {budget} simulated steps in "
             f"{e} after {L.c['exec']} constraint executions, {L.c['bc']} passes, {L.c['choice']} choices",
         )
         if prop_of_mode == "C03":
-            viol("C03", "does-not-terminate", f"{mode} did not terminate within {SOLVER_BUDGET} simulated steps ({e})")
+            viol("C03", "does-not-terminate", f"{mode} did not terminate within {budget} simulated steps ({e})")
     except Exception as e:
         if classify_exception(e) == "harness":
             raise
@@ -373,7 +376,7 @@ def run_one(ch, focus, model, cfg, mode, policy, ref, out, problem=None) -> str:
     out["probes"]["passes"] += L.c["bc"]
     out["probes"]["choices"] += L.c["choice"]
     out["probes"]["backtracks"] += L.c["bt_solver"]
-    out["probes"]["max_budget_ratio_ppm"] = max(out["probes"]["max_budget_ratio_ppm"], int(1e6 * used / SOLVER_BUDGET))
+    out["probes"]["max_budget_ratio_ppm"] = max(out["probes"]["max_budget_ratio_ppm"], int(1e6 * used / budget))
     out["probes"]["max_pass_ratio_pct"] = max(out["probes"]["max_pass_ratio_pct"], int(100 * L.max_ratio))
     out["probes"]["distinct_wake_orders"] += len(L.order_hashes)
     out["probes"]["fixpoint_states"] += len(L.fix_states)
